@@ -9,6 +9,18 @@ COMMON_NOTE = ("Trusted base: rustc/cargo 1.80.1, serde/serde_json, syn, python 
                "see DESIGN.md section 4 'Outside' for what the bound leaves open.")
 
 CHECKS = {
+ "C01": dict(
+  text="Bounded exhaustive enumeration of (schema document, settings, ingestion batching): the depth-2 space (leaf x composite x context menus; thorough: + pairs + depth-3) under builder off/on (thorough: the 12-element product builder x 3 map types x derives), a name-collision family (prelude names and every name typify invents, as definition keys and member names), C06's default family, n=1 recursion graphs and three batchings of every document; each is ingested by the real typify-impl, rendered, parsed by syn and type-checked by rustc (cargo check) with per-case error attribution. Ingest Ok => renders, parses, zero rustc errors; and every member of the families must be accepted.",
+  design="DESIGN.md 4/C01", technique="bounded exhaustive enumeration of schemas x settings x ingestion histories on the implementation; rustc type-check of every generated module",
+  note="Type-check (cargo check) against serde, serde_json, chrono, uuid, regress at the repo's locked versions with rustc 1.80.1; warnings ignored. Depth>=4 compositions and >2 simultaneous collisions are outside the bound. " + COMMON_NOTE),
+ "C06": dict(
+  text="Exhaustive table: one type kind per arm of the default validation/rendering code (38 kinds) x a candidate set of valid (intrinsic and non-intrinsic) and invalid defaults x position {member, named definition, add_type_with_name} x builder {off,on}; each case is ingested by the real typify-impl, compiled, and the realised default is observed at run time through serde (missing member), the builder and the Default impl; validity of every candidate is decided by the jsonschema oracle.",
+  design="DESIGN.md 4/C06", technique="exhaustive kind x default x position table executed on the implementation and on compiled generated code, jsonschema validity oracle",
+  note="Invalid defaults of native types (uuid, date) are not demanded to fail (validation documented as deferred). Defaults nested deeper than 2 are outside the bound. " + COMMON_NOTE),
+ "C19": dict(
+  text="Bounded exhaustive enumeration of the depth-2 space (thorough: + pairs) x settings {builder, extra derive, custom map}; every struct/enum item of every generated module gets one compiled bound assertion in its own file (Debug + Clone + Serialize + DeserializeOwned + From<&T>, plus Copy/Eq/Ord/Hash/PartialOrd/PartialEq for data-less enums and Eq/Ord/Hash for string newtypes); a syn scan checks that every item, struct member and unconstrained-newtype field is pub; the negative half (no underivable trait) is the rustc verdict on the module.",
+  design="DESIGN.md 4/C19", technique="bounded exhaustive enumeration; compiled trait-bound assertions per generated type + structural visibility scan",
+  note="Module compile errors other than E0204/E0277/E0369 are left to C01. " + COMMON_NOTE),
  "C08": dict(
   text="Exhaustive enumeration of every string of length <=3 (quick) / <=4 (thorough) over a 13-character alphabet (XID_Start ASCII and non-ASCII, XID_Continue-only, '_', '-', apostrophe, space, symbols, case-mapping changers), the Rust keyword list in three casings and sanitize's special cases, each as member name, enum value and definition key, then every pair the implementation itself maps to one identifier (collision classes discovered through the adapter); each ingested by the real typify-impl and judged on the parsed output (identifiers distinct per scope, effective serde wire name == JSON name) and, for a covering subset, compiled and round-tripped under the exact name.",
   design="DESIGN.md 4/C08", technique="bounded exhaustive string enumeration on the implementation, collision classes discovered from the implementation, structural scan + compiled wire round trip",
